@@ -165,6 +165,22 @@ def check_mesh(ctx, name, mesh, fixed, with_model=True):
     if r > 1e-9:
         fail("grad_linear_exact", r)
 
+    # ---------------- the operators IN USE after in-place updates obey the identities too -----------------
+    from tdgl.finite_volume.operators import MeshOperators
+    from tdgl.solver.options import SparseSolver
+
+    mo = MeshOperators(mesh, SparseSolver.SUPERLU, fixed_sites=None, fix_psi=False)
+    mo.build_operators()
+    for k_ in range(3):
+        Ak = rng.normal(size=(E, 2)) * (0.0 if k_ == 0 else 1.5)
+        mo.set_link_exponents(Ak)
+        Hk = (sp.diags(a) @ mo.psi_laplacian).toarray()
+        r = relerr(Hk - Hk.conj().T, np.abs(Hk).max())
+        ctx.tol("aL^A hermitian (operators in use after updates)", r, 1e-9)
+        if r > 1e-9:
+            fail("cov_hermitian_in_use", dict(update=k_, defect=r))
+        ctx.case((name, "in_use", k_), nontrivial=k_ > 0)
+
     # ---------------- correspondence with the Lean model --------------------------------------
     if with_model:
         lines = [zoo.mesh_line(mesh)]
